@@ -201,3 +201,9 @@ Definition C35_known (c : ent_case) : N :=
   | [] => 0%N
   | x :: t => if existsb (N.eqb 0) (x :: t) then 0%N else x
   end.
+
+(* the same scenarios on a harness built WITHOUT overflow checks (thorough tier): the model runs in the Release
+   profile; the oracle is the same *)
+Definition C35R_model_ok (c : ent_case) : bool := rets_eqb (wrun Release init_world (c_ops c)) (c_outs c).
+Definition C35R_oracle_ok : ent_case -> bool := C35_oracle_ok.
+Definition C35R_known : ent_case -> N := C35_known.
